@@ -49,6 +49,40 @@ fn main() {
             let h = std::thread::Builder::new().stack_size(1 << 30).spawn(move || cmd_replay(&a)).unwrap();
             h.join().unwrap_or(4)
         }
+        Some("deepchain") => {
+            // probe run in its own process: a chain of `depth` multiplications on a thread with a `stack-mb` MiB stack
+            let depth: usize = args[2].parse().unwrap_or(1000);
+            let mb: usize = args[3].parse().unwrap_or(8);
+            let mode = args.get(4).cloned().unwrap_or_else(|| "backward".into());
+            let h = std::thread::Builder::new()
+                .stack_size(mb << 20)
+                .spawn(move || {
+                    use corgi::array::Array;
+                    let a = cg::arr(&[2], &[1.0, -1.0]).tracked();
+                    let one = cg::arr(&[2], &[1.0, 1.0]);
+                    let mut c: Array = &a * &one;
+                    for _ in 0..depth {
+                        c = &c * &one;
+                    }
+                    println!("built");
+                    if mode == "backward" {
+                        c.backward(None);
+                        println!("backward-done");
+                        let g = cg::grad_of(&a);
+                        if g != Some((vec![2], vec![1.0, 1.0])) {
+                            println!("WRONG-GRADIENT {:?}", g);
+                            return 5;
+                        }
+                    }
+                    drop(c);
+                    println!("dropped");
+                    let v: Vec<corgi::numbers::Float> = Vec::from(a);
+                    println!("OK {}", v.len());
+                    0
+                })
+                .unwrap();
+            h.join().unwrap_or(4)
+        }
         Some("families") => {
             for c in checks::all() {
                 let q = (c.families)(Tier::Quick);
